@@ -2549,6 +2549,22 @@ def _make_tile_shapes(job: "Job"):
         df = pd.DataFrame(df, columns=df.keys(), index=[0])
     assert not df.isna().any().any()
 
+    if not symbols:
+        # No tile shape to choose, so get_tile_shape_choices enumerated nothing and
+        # checked no limit. Check them for this template's single pmapping.
+        for o in objectives:
+            value = float(o.formula)
+            if o.max_value is not None and (
+                value > o.max_value if o.inclusive else value >= o.max_value
+            ):
+                df = df.iloc[:0]
+            if (
+                o.min_value is not None
+                and not o.try_best_if_none_reaches_min
+                and (value < o.min_value if o.inclusive else value <= o.min_value)
+            ):
+                df = df.iloc[:0]
+
     energy_cols = [c for c in df.columns if "energy" in c]
     if (df[energy_cols] < 0).any(axis=None):
         for col in energy_cols:
